@@ -6,13 +6,14 @@
 #include "ref_enc.h"
 #include DRV
 #include "codec.h"
-struct inputs { struct tval v; uint8_t k, k2; };
+#include "exact_buf.h"
+struct inputs { struct tval v; uint8_t k, k2; int8_t alloc_fail_at; };
 #include "verif_in.h"
+#ifdef ALLOC_FAIL
+extern int verif_alloc_fail_at, verif_alloc_count;
+#endif
 static uint8_t *chunk(const uint8_t *src, size_t n) {
-    uint8_t *p = (uint8_t *)malloc(n);
-    ASSUME(p != 0);
-    for(size_t i = 0; i < TV_MAXENC; i++) if(i < n) p[i] = src[i];
-    return p;
+    return exact_copy(src, n);
 }
 void harness(void) {
     VERIF_INPUTS();
@@ -28,7 +29,30 @@ void harness(void) {
     TYPE_T *v = 0;
     size_t done = 0;
     uint8_t *c1 = chunk(enc, in.k);
+#ifdef ALLOC_FAIL
+    /* C14: one allocation (symbolic index, over both calls) fails: every outcome must be clean and leak-free */
+    ASSUME(in.alloc_fail_at >= -1 && in.alloc_fail_at <= 8);
+    verif_alloc_fail_at = in.alloc_fail_at; verif_alloc_count = 0;
+#endif
     asn_dec_rval_t r1 = do_decode(&TYPE_DEF, (void **)&v, c1, in.k);
+#ifdef ALLOC_FAIL
+    CHECK(r1.code == RC_WMORE || r1.code == RC_FAIL, "prefix under allocation failure: WMORE or FAIL");
+    CHECK(r1.consumed <= in.k, "consumed does not exceed the prefix");
+    free(c1);
+    if(r1.code != RC_WMORE) { verif_alloc_fail_at = -1; if(v) ASN_STRUCT_FREE(TYPE_DEF, v); WITNESS(); return; }
+    {
+        uint8_t *cr = chunk(enc + r1.consumed, len - r1.consumed);
+        asn_dec_rval_t rr = do_decode(&TYPE_DEF, (void **)&v, cr, len - r1.consumed);
+        int failed_alloc = verif_alloc_fail_at >= 0 && verif_alloc_count > verif_alloc_fail_at;
+        verif_alloc_fail_at = -1;
+        if(!failed_alloc) { CHECK(rr.code == RC_OK && r1.consumed + rr.consumed == len, "without a failed allocation the rest completes"); if(rr.code == RC_OK && v) CHECK(tv_match(&in.v, v), "value"); }
+        else CHECK(rr.code == RC_OK || rr.code == RC_FAIL, "after a failed allocation: OK or FAIL, nothing else");
+        free(cr);
+        if(v) ASN_STRUCT_FREE(TYPE_DEF, v);
+        WITNESS();
+        return;
+    }
+#endif
     CHECK(r1.code == RC_WMORE, "a proper prefix of a valid encoding yields RC_WMORE");
     CHECK(r1.consumed <= in.k, "consumed does not exceed the prefix");
     free(c1);
